@@ -1004,7 +1004,11 @@ func init() {
 					return true
 				}
 			}
-			m := fr.i.prog.LookupMethod(ie.t, nil, "Unwrap")
+			sel := fr.i.prog.MethodSets.MethodSet(ie.t).Lookup(nil, "Unwrap")
+			if sel == nil {
+				return false
+			}
+			m := fr.i.prog.MethodValue(sel)
 			if m == nil {
 				return false
 			}
